@@ -15,6 +15,7 @@ pid_t vs_fork(void);
 void vs_user_point(void *obj);
 int vs_mutex_owner(pthread_mutex_t *m);
 int vs_steps(void);
+int vs_bad_closes(void);
 #include <sys/uio.h>
 ssize_t vs_write(int fd, const void *b, size_t n);
 ssize_t vs_writev(int fd, const struct iovec *iov, int c);
